@@ -85,10 +85,25 @@ def iter_desc(X, st, v):
             return IterDesc(z3.IntSort(), None, None, concrete=[B.pykey_value(k) for k in sorted(o.items, key=repr)])
         if isinstance(o, LSet):
             return IterDesc(core.Key, None, lambda k: VKey(k), guard=o.member, ordered=False)
+    if isinstance(v, core.VJson):
+        from . import jsonmodel as JM
+
+        t = v.t
+        # only called after the caller established the tag (see for_loop / comprehension)
+        if getattr(v, "as_object", False):
+            return IterDesc(core.StrS, None, lambda k: VStr(k), guard=lambda k: JM.jhas(t, k), ordered=False)
+        return IterDesc(z3.IntSort(), JM.jlen(t), lambda i: core.VJson(JM.jelem(t, i)))
     if isinstance(v, VIter):
         w = v.what
         if w == "desc":
             return v.parts[0]
+        if w in ("jkeys", "jitems"):
+            from . import jsonmodel as JM
+
+            t = v.parts[0].t
+            if w == "jkeys":
+                return IterDesc(core.StrS, None, lambda k: VStr(k), guard=lambda k: JM.jhas(t, k), ordered=False)
+            return IterDesc(core.StrS, None, lambda k: VTuple([VStr(k), core.VJson(JM.jget(t, k))]), guard=lambda k: JM.jhas(t, k), ordered=False)
         if w == "range":
             lo, hi = v.parts
             if not (isinstance(lo, VInt) and isinstance(hi, VInt)):
@@ -178,6 +193,9 @@ def contains_const(t, k):
     return any(contains_const(c, k) for c in t.children())
 
 
+INVERT_REQS = []  # side conditions (functions of the generic key) under which an inversion is exact
+
+
 def invert(T, k, r):
     """Find k' (a term over r) with T[k := k'] == r, for T built from constructors / denum over k."""
     if T.eq(k):
@@ -186,6 +204,16 @@ def invert(T, k, r):
         return None
     d = T.decl()
     kids = T.children()
+    if d.name() == "str2int" and len(kids) == 1 and contains_const(kids[0], k):
+        # int(s) is inverted by str(i) only on canonical decimal strings: side condition recorded
+        from .builtins_model import int2str, str2int
+
+        inner = kids[0]
+        INVERT_REQS.append((k, int2str(str2int(inner)) == inner))
+        return invert(inner, k, int2str(r))
+    if d.name() in ("ks", "ki", "kb", "kr") and len(kids) == 1 and contains_const(kids[0], k):
+        ctor = {"ks": core.Key.KStr, "ki": core.Key.KInt, "kb": core.Key.KBool, "kr": core.Key.KReal}[d.name()]
+        return invert(kids[0], k, ctor(r))
     idx = [i for i, c in enumerate(kids) if contains_const(c, k)]
     if len(idx) != 1:
         return None
@@ -198,6 +226,10 @@ def invert(T, k, r):
                 return invert(kids[i], k, acc(r))
     if d.name() == "denum" and i == 1:
         return invert(kids[1], k, dpos(kids[0], r))
+    if d.name() == "key2str" and i == 0:
+        from .builtins_model import str2key
+
+        return invert(kids[0], k, str2key(r))
     if d.kind() == z3.Z3_OP_ADD and len(kids) == 2 and z3.is_int(T):
         other = kids[1 - i]
         return invert(kids[i], k, r - other)
@@ -234,9 +266,9 @@ def family_run(X, st, desc, body_fn):
         delta = s.pc[base_pc + 1 :]
         cond = z3.And(delta) if delta else z3.BoolVal(True)
         kind = {"next": "normal", "continue": "normal"}.get(o.kind, o.kind)
-        if len(s.foralls) > n_foralls:
-            raise Unsupported("quantified fact created inside a family body")
-        outcomes.append(FamOutcome(kind, s, cond, o.v, o.exc))
+        oc = FamOutcome(kind, s, cond, o.v, o.exc)
+        oc.nested = list(s.foralls[n_foralls:])  # quantified facts created at the generic key
+        outcomes.append(oc)
     return FamilyRun(k, desc, outcomes, st)
 
 
@@ -262,12 +294,18 @@ def _obj_writes(st_after, st_before):
         if oid == "__globals__":
             continue
         if oid not in st_before.heap:
-            raise Unsupported("object allocated inside a family body")
+            continue  # temporaries of the iteration (escaping references are rejected by check_escape)
         o0 = st_before.heap[oid]
         if o is o0:
             continue
         if isinstance(o, Inst):
             raise Unsupported("scalar field write inside a pointwise loop body")
+        if isinstance(o, CList) and isinstance(o0, CList) and not o.is_tuple:
+            n0 = len(o0.items)
+            if len(o.items) == n0 + 1 and all(x is y for x, y in zip(o.items, o0.items)):
+                res.append((oid, [("append", o.items[-1])]))
+                continue
+            raise Unsupported("list changed inside a family body (only a single append per iteration is modelled)")
         if isinstance(o, (LList, LDict)):
             ws = []
             cur = o
@@ -321,6 +359,31 @@ def apply_family(X, run, st, normal_conds, extra_guard=None):
             g = z3.And(g, extra_guard(kk))
         return g
 
+    # accumulation `lst.append(f(x))` once per iteration: the list grows by the mapped sequence
+    appends = {}
+    normal_ocs = [oc for oc in run.outcomes if oc.kind == "normal"]
+    for oc in normal_ocs:
+        for oid, ws in _obj_writes(oc.st, run.base):
+            for w in ws:
+                if isinstance(w[0], str) and w[0] == "append":
+                    appends.setdefault(oid, {})[id(oc)] = w[1]
+    for oid, per in appends.items():
+        for x in per.values():
+            check_escape(st, x)
+        if len(per) != len(normal_ocs) or desc.ksort != z3.IntSort() or not desc.ordered or extra_guard is not None and False:
+            raise Unsupported("list append not performed exactly once on every normal iteration")
+        base = st.heap[oid]
+        n0 = len(base.items)
+        total = z3.simplify(n0 + desc.length)
+
+        def getter(i, base=base, per=per, n0=n0):
+            res = None
+            for oc in normal_ocs:
+                v = subst_v(per[id(oc)], [(k, i - n0)])
+                res = v if res is None else vite(z3.substitute(oc.cond, (k, i - n0)), v, res)
+            return vite(i < n0, X.B.clist_get(base, i) if n0 else res, res)
+
+        st.heap[oid] = LList(total, getter)
     for oc in run.outcomes:
         if oc.kind != "normal":
             continue
@@ -339,6 +402,8 @@ def apply_family(X, run, st, normal_conds, extra_guard=None):
         for oid, ws in _obj_writes(oc.st, run.base):
             o0 = st.heap[oid]
             for key_t, val in ws:
+                if isinstance(key_t, str) and key_t == "append":
+                    continue
                 if not contains_const(key_t, k):
                     raise Unsupported("collection write at a loop-independent key")
                 if isinstance(o0, CDict):
@@ -401,6 +466,7 @@ def family_finish(X, run, after_normal):
     if normal:
         N = st.fork()
         N.forall(k, desc.guard(k), z3.Or([oc.cond for oc in normal]), name="loop-normal")
+        N.foralls[-1].nested = [nf for oc in normal for nf in getattr(oc, "nested", [])]
         apply_family(X, run, N, normal)
         from .execu import is_feasible
 
@@ -418,6 +484,8 @@ def family_finish(X, run, after_normal):
         w = Xs.fresh("wit.raise", desc.ksort)
         Xs.add_index(w)
         Xs.add(desc.guard(w), z3.substitute(oc.cond, (k, w)))
+        for nf in getattr(oc, "nested", []):
+            Xs.foralls.append(nf.subst([(k, w)]))
         if desc.ksort == z3.IntSort() and desc.ordered:
             before = lambda kk: kk < w
         else:
@@ -426,12 +494,15 @@ def family_finish(X, run, after_normal):
         if normal:
             gd = z3.And(desc.guard(k), before(k))
             Xs.forall(k, gd, z3.Or([o2.cond for o2 in normal]), name="loop-prefix-normal")
+            Xs.foralls[-1].nested = [nf for o2 in normal for nf in getattr(o2, "nested", [])]
             apply_family(X, run, Xs, normal, extra_guard=before)
         # partial effects of the raising iteration itself (at the witness key)
         for ref_t, view_t in _view_writes(oc.st, run.base):
             Xs.set_view(z3.substitute(ref_t, (k, w)), z3.substitute(view_t, (k, w)))
         for oid, ws in _obj_writes(oc.st, run.base):
             for key_t, val in ws:
+                if isinstance(key_t, str) and key_t == "append":
+                    continue  # the partially built local list is dead after the raise
                 o0 = Xs.heap[oid]
                 if isinstance(o0, CDict):
                     o0 = X.B.cdict_to_ldict(Xs, o0)
@@ -465,8 +536,39 @@ def for_loop(X, st, node):
             outs.append(Out(r.st, "raise", exc=r.exc))
             continue
         for s, itv in X.split_ite(r.st, r.v):
-            outs.extend(_for_loop(X, s, node, itv))
+            for s2, itv2, exc in json_iterable(X, s, itv):
+                if exc is not None:
+                    outs.append(Out(s2, "raise", exc=exc))
+                else:
+                    outs.extend(_for_loop(X, s2, node, itv2))
     return outs
+
+
+def json_iterable(X, st, itv):
+    """iterating a symbolic JSON value: an array yields elements, an object its keys, anything else
+    raises TypeError (strings, which iterate characters, are out of reach)"""
+    if not isinstance(itv, core.VJson):
+        return [(st, itv, None)]
+    from . import jsonmodel as JM
+    from .execu import Exc
+
+    out = []
+    t = itv.t
+    for s, isarr in X.branch(st, JM.jtag(t) == JM.ARR):
+        if isarr:
+            out.append((s, itv, None))
+            continue
+        for s2, isobj in X.branch(s, JM.jtag(t) == JM.OBJ):
+            if isobj:
+                v2 = core.VJson(t)
+                v2.as_object = True
+                out.append((s2, v2, None))
+                continue
+            for s3, isstr in X.branch(s2, JM.jtag(t) == JM.STR):
+                if isstr:
+                    raise Unsupported("iteration over a json string")
+                out.append((s3, itv, Exc("TypeError", "json value is not iterable")))
+    return out
 
 
 def _for_loop(X, st, node, itv):
@@ -582,6 +684,21 @@ def search_loop(X, st, node, desc):
     return outs
 
 
+def check_escape(st, v):
+    """values kept from a family body must not reference objects allocated inside the body"""
+    if isinstance(v, VObj) and v.oid not in st.heap:
+        raise Unsupported("object allocated inside a family body escapes")
+    if isinstance(v, VTuple):
+        for x in v.items:
+            check_escape(st, x)
+    if isinstance(v, core.VRec):
+        for x in v.items.values():
+            check_escape(st, x)
+    if isinstance(v, core.VIte):
+        check_escape(st, v.a)
+        check_escape(st, v.b)
+
+
 def subst_any(x, k, m):
     if isinstance(x, z3.ExprRef):
         return z3.substitute(x, (k, m))
@@ -603,7 +720,11 @@ def comprehension(X, st, node, kind):
             out.append(r)
             continue
         for s, itv in X.split_ite(r.st, r.v):
-            out.extend(_comprehension(X, s, node, gen, kind, itv))
+            for s2, itv2, exc in json_iterable(X, s, itv):
+                if exc is not None:
+                    out.append(Res(s2, exc=exc))
+                else:
+                    out.extend(_comprehension(X, s2, node, gen, kind, itv2))
     return out
 
 
@@ -678,6 +799,9 @@ def _comprehension(X, st, node, gen, kind, itv):
     run = family_run(X, st, desc, body)
     k = run.k
     normal = [oc for oc in run.outcomes if oc.kind == "normal"]
+    for oc in normal:
+        for x in oc.v or []:
+            check_escape(st, x)
 
     def after(N):
         N.frames[-1] = dict(saved)
@@ -719,6 +843,22 @@ def _comprehension(X, st, node, gen, kind, itv):
 
             length = desc.length if desc.length is not None else N.fresh("dlen", z3.IntSort())
             N.add(length >= 0)
+            # exactness of the key inversion (e.g. int(str) only on canonical strings) must be entailed
+            del INVERT_REQS[:]
+            probe = z3.Const(f"probe!{core.uid()}", core.Key)
+            present(probe)
+            reqs = list(INVERT_REQS)
+            del INVERT_REQS[:]
+            for kk, cond in reqs:
+                if not kk.eq(k):
+                    continue  # belongs to an enclosing / earlier comprehension, checked there
+                neg = N.fork()
+                w = neg.fresh("wit.noncanon", kk.sort())
+                neg.add_index(w)
+                neg.add(desc.guard(w), z3.Not(z3.substitute(cond, (kk, w))))
+                neg.add(z3.Or([z3.substitute(oc.cond, (k, w)) for oc in normal]))
+                if full_feasible(neg):
+                    raise Unsupported("dict comprehension key is not injective on this input (e.g. non-canonical integer strings)")
             return [Out(N, "next", v=N.alloc(LDict(present, val, length)))]
         if kind == "gen" and desc.ksort != z3.IntSort():
             return [Out(N, "next", v=VIter("desc", IterDesc(desc.ksort, desc.length, lambda i: elem(i, 0), guard=desc._guard, ordered=False)))]
@@ -792,6 +932,9 @@ def make_set(X, st, v):
     if d.ksort == core.Key:
         # keys of a dict / members of a set
         return [Res(st, st.alloc(LSet(d.guard)))]
+    if d.ksort == core.StrS:
+        g = d.guard
+        return [Res(st, st.alloc(LSet(lambda x: z3.And(core.Key.is_KStr(x), g(core.Key.ks(x))))))]
     raise Unsupported("set() of symbolic list")
 
 
